@@ -593,6 +593,50 @@ def check_henry_limits(ctx):
     ctx.add('henry_slope_with_limits', ev, nt)
 
 
+def check_henry_deep_vacuum(ctx):
+    """High-resolution micropore measurements start at 1e-4 ... 1e-2 Pa: in MPa, bar or relative pressure their first point is a number below 1e-8
+    (and still not zero). initial_henry_slope / initial_henry_virial in every pressure representation: K changes by exactly the unit factor.
+    (Loadings stay in units where they are of order one: small loading numbers are the domain of the known D31.)"""
+    import pygaps
+    import pygaps.characterisation as pgc
+    T = 77.355
+    c = ru.ads_consts(pygaps.Adsorbate.find('N2').backend_name, T)
+    ev = nt = 0
+    worst = 0.0
+    for p0 in (5e-3, 2e-4):
+        p = numpy.geomspace(p0, 1e3, 40)                     # Pa
+        n = 6.0 * ctx.scale * 5 * p / (1 + 5 * p)             # mmol/g
+        base = pygaps.PointIsotherm(pressure=p, loading=n, material='c15v', adsorbate='N2', temperature=T, pressure_mode='absolute', pressure_unit='Pa',
+                                    loading_basis='molar', loading_unit='mmol', material_basis='mass', material_unit='g', temperature_unit='K')
+        for name, fn in (('initial_henry_slope', lambda i: pgc.initial_henry_slope(i)), ('initial_henry_slope(max_adjrms=0.05)', lambda i: pgc.initial_henry_slope(i, max_adjrms=0.05)),
+                         ('initial_henry_virial', lambda i: pgc.initial_henry_virial(i))):
+            b = core.call(fn, clone(base))
+            if not b.ok:
+                continue
+            for (pm, pu) in P_REPS:
+                for (lb, lu) in (('molar', 'mmol'), ('molar', 'cm3(STP)'), ('mass', 'mg')):
+                    iso = clone(base)
+                    iso.convert(pressure_mode=pm, pressure_unit=pu, loading_basis=lb, loading_unit=lu)
+                    with ru.library_tables():
+                        fl = float(ru.c_loading(1.0, 'molar', 'mmol', lb, lu, c))
+                        fp = float(ru.c_pressure(1.0, 'absolute', 'Pa', pm, pu, c))
+                    want = float(b.value) * fl / fp
+                    o = core.call(fn, iso)
+                    ev += 1
+                    nt += 1
+                    tol = 1e-5 if name.startswith('initial_henry_slope') else TOL_OPT
+                    if o.ok:
+                        worst = max(worst, abs(float(o.value) - want) / abs(want) / tol)
+                    if not o.ok or abs(float(o.value) - want) > tol * abs(want):
+                        ctx.violate(core.make_violation(
+                            {'check': 'henry-deep-vacuum', 'entry': name.split('(')[0], 'kind': 'value' if o.ok else 'raises:' + o.kind},
+                            f'{name} on an isotherm measured from {p0:g} Pa, stored as {(pm, pu, lb, lu)} (first point {float(iso.pressure()[0]):.3g}): '
+                            f'{o.value if o.ok else o.brief()[:160]} instead of {want:.9g} = (K of the same data in Pa, mmol/g) x the unit factors',
+                            {'rep': (pm, pu, lb, lu), 'first_pressure_Pa': p0}, want, o.value if o.ok else None))
+    ctx.add('henry_deep_vacuum', ev, nt)
+    ctx.track('henry_deep_vacuum', worst, 1.0)
+
+
 def run(ctx):
     E, heavy = entries(ctx.tier)
     if ctx.quick:
@@ -628,6 +672,7 @@ def run(ctx):
     check_alpha_reference(ctx)
     check_model_isotherms(ctx)
     check_henry_limits(ctx)
+    check_henry_deep_vacuum(ctx)
     ctx.cov['analyses_not_returning_on_the_original_representation'] = nr
     ctx.cov['domain_sizes'] = {'entry_points': len(E) + len(heavy), 'representations': len(reps), 'isotherms': len(isos)}
     ctx.cov['rule'] = ('every characterisation entry point x stored representations (thorough: 10 pressure x 25 loading x 2 temperature units; quick: 10 x 4 + 2 x 25 + Celsius samples) x '
